@@ -476,8 +476,18 @@ class ConnectedRemotePeer(RemotePeer):
                         self.host, coinstate_prior.head().height, human(block_hash), str(e)))
                 return
 
+            try:
+                coinstate_changed = coinstate_prior.add_block_no_validation(block)
+            except Exception as e:
+                # e.g. a block that spends an output which does not exist: it cannot be applied, so it is invalid.
+                self.local_peer.logger.info(
+                    "%15s at height=%d, block received cannot be applied: %s, error = %s" % (
+                        self.host, coinstate_prior.head().height, human(block_hash), str(e)))
+                return
+
+            # only buffer the block for writing once we know it can be applied; a block left behind in the write buffer
+            # would make every later flush fail.
             self.local_peer.disk_interface.save_block(block)
-            coinstate_changed = coinstate_prior.add_block_no_validation(block)
 
             if header.in_response_to == 0 or block.height % IBD_VALIDATION_SKIP == 0:
                 # Validation is very slow, and we don't have to validate every block in a blockchain, so
